@@ -89,3 +89,31 @@ package diagnostic
 //@ loop 0 invariant filling (forall ((k Int)) (=> (and (<= 0 k) (<= k rangeindex)) (= (idx fakeLines k) k)))
 //@ loop 0 invariant shape (and (= (len fakeLines) position.Line) (fresh (s.arr fakeLines)) (<= -1 rangeindex) (< rangeindex (len fakeLines)) (filesOK e) (not (mapin e.files position.Filename)))
 //@ loop 1 invariant padding (and (filesOK e) (mapin e.files position.Filename) (= (mapget e.files position.Filename) info) (. info isFake) (fakeOK (. info file)) (= i (len (. info file lines))))
+
+//@ -- C14: an over-constraint conflict is reported at the position of the LAST reason of the non-nil chain (the point
+//@ -- of dereference), exactly one conflict is appended, earlier conflicts are untouched.  The chain is walked through
+//@ -- the interface methods of inference.ExplainedBool, modelled as functions of the receiver value.
+//@ method go.uber.org/nilaway/inference.ExplainedBool DeeperReason fn
+//@ method go.uber.org/nilaway/inference.ExplainedBool Position fn
+//@ method go.uber.org/nilaway/inference.ExplainedBool TriggerReprs fn
+//@ func newNode
+//@ nobody
+//@ func (*nilFlow).addNilPathNode
+//@ prop C14
+//@ modifies (obj n) (elems n.nilPath)
+//@ func (*nilFlow).addNonNilPathNode
+//@ prop C14
+//@ modifies (obj n) (elems n.nonnilPath)
+
+//@ func (*Engine).AddOverconstraintConflict
+//@ prop C14 C13
+//@ requires (and (not (= e nil)) (not (= e.pass nil)))
+//@ modifies (obj e) (elems e.conflicts) nilFlow []node
+//@ ensures exactly-one-conflict-appended (= (len e.conflicts) (+ (old (len e.conflicts)) 1))
+//@ ensures earlier-conflicts-untouched (forall ((j Int)) (=> (and (<= 0 j) (< j (old (len e.conflicts)))) (= (idx e.conflicts j) (old (idx e.conflicts j)))))
+//@ ensures reported-at-the-last-reason-of-the-nonnil-chain (=> (not (isnil nonnilReason))
+//@    (exists ((p inference.ExplainedBool)) (and (not (isnil p)) (isnil (mcall DeeperReason p)) (= (. (idx e.conflicts (old (len e.conflicts))) position) (mcall Position p)))))
+//@ loop 0 invariant conflicts-untouched (and (= e.conflicts (old e.conflicts)) (heap-unchanged (elems e.conflicts)))
+//@ loop 1 invariant conflicts-untouched (and (= e.conflicts (old e.conflicts)) (heap-unchanged (elems e.conflicts)))
+//@ loop 1 invariant position-of-the-previous-reason (or (= r nonnilReason)
+//@    (exists ((p inference.ExplainedBool)) (and (not (isnil p)) (= r (mcall DeeperReason p)) (= reportPosition (mcall Position p)))))
